@@ -137,6 +137,11 @@ var c10Hostile = []string{
 	"SELECT * FROM t x PARALLEL JOIN t2 y ON x.k = y.c AND x.s",
 	"SELECT * FROM t x PARALLEL JOIN t2 y ON x.items = y.c OR x.nokey < y.nokey",
 	"SELECT * FROM t PARALLEL JOIN t2 ON t.k = t2.c",
+	"SELECT SETVAR('x', 1) FROM t",
+	"SELECT k, SETVAR('x', k), GETVAR('x') AS g FROM t",
+	"SELECT GETVAR('x') AS g, SETVAR('x', GETVAR('x')) FROM t WHERE k > 0",
+	"SELECT ONCE.vf_id(k) AS o, ASYNC.vf_id(k) AS a, SPIN.vf_id(k) FROM t ORDER BY a",
+	"WITH c AS (SELECT k, SETVAR('x', k) FROM t) SELECT * FROM c x JOIN c y ON x.k = y.k",
 	"INSERT INTO t VALUES (1)",
 	"UPDATE t SET k = 1",
 	"DELETE FROM t",
